@@ -28,6 +28,7 @@ static int c19_atexit(void (*f)(void)) { c19_atexit_calls++; return (c19_atexit_
 extern unsigned c19_cycle;
 extern int      c19_poison;
 void c19_ledger_live(size_t *blocks, size_t *bytes);
+size_t c19_ledger_my_allocs(void);
 void c19_ledger_dump(unsigned cycle, int max);
 int  c19_lfq_pool_set(void);
 int  c19_proxy_exit(void);
@@ -214,13 +215,21 @@ int main(void)
         phase = "initialize";
         if (qthread_initialize() != QTHREAD_SUCCESS) { printf("ERR initialize\n"); return 2; }
         int thr_run = nthreads();
-        int ri_ok = 1;
-        if (ri) {          /* redundant initialize: nothing may change */
-            qlib_t q0 = qlib; int t0 = nthreads(), a0 = c19_atexit_calls; size_t b0, y0, b1, y1;
-            c19_ledger_live(&b0, &y0);
-            ri_ok = qthread_initialize() == QTHREAD_SUCCESS && qthread_initialize() == QTHREAD_SUCCESS;
-            c19_ledger_live(&b1, &y1);
-            ri_ok = ri_ok && qlib == q0 && nthreads() == t0 && c19_atexit_calls == a0 && b1 == b0;
+        int ri_ok = 1, ri_why = 0;
+        if (ri) {          /* redundant initialize: nothing may change.  Only observables that the concurrently starting workers
+                            * cannot disturb: return codes, qlib, shepherd/worker counts, exit-handler registrations, allocations
+                            * made BY THE CALLING THREAD (the process-wide live-block count moves while fresh workers bind
+                            * themselves), and no additional OS thread (an exiting one may disappear meanwhile) */
+            qlib_t q0 = qlib; int t0 = nthreads(), a0 = c19_atexit_calls;
+            int s0 = qthread_num_shepherds(), w0 = qthread_num_workers();
+            size_t m0 = c19_ledger_my_allocs();
+            if (!(qthread_initialize() == QTHREAD_SUCCESS && qthread_initialize() == QTHREAD_SUCCESS)) ri_why |= 1;
+            if (c19_ledger_my_allocs() != m0) ri_why |= 2;
+            if (qlib != q0) ri_why |= 4;
+            if (nthreads() > t0) ri_why |= 8;
+            if (c19_atexit_calls != a0) ri_why |= 16;
+            if ((int)qthread_num_shepherds() != s0 || (int)qthread_num_workers() != w0) ri_why |= 32;
+            ri_ok = ri_why == 0;
         }
         phase = "smoke";
         int smoke = wl_spawn();
@@ -236,8 +245,8 @@ int main(void)
             pthread_create(&th, NULL, p_fin, NULL); pthread_join(th, NULL);
             rf_ok = qlib == q0 && qlib != NULL && wl_spawn();
         }
-        printf("Y cycle=%d sheps=%d workers=%d threads_run=%d io_workers_run=%ld smoke=%d wl_bad=%s ri_ok=%d rf_ok=%d\n", cyc,
-               (int)qthread_num_shepherds(), (int)qthread_num_workers(), thr_run, c19_io_workers(), smoke, bad[0] ? bad : "-", ri_ok, rf_ok);
+        printf("Y cycle=%d sheps=%d workers=%d threads_run=%d io_workers_run=%ld smoke=%d wl_bad=%s ri_ok=%d ri_why=%d rf_ok=%d\n", cyc,
+               (int)qthread_num_shepherds(), (int)qthread_num_workers(), thr_run, c19_io_workers(), smoke, bad[0] ? bad : "-", ri_ok, ri_why, rf_ok);
         cl_n = 0; run_n = 0;
         cl_base_thr = base_thr;
         printf("G"); hook_list("early", qt_cleanup_early_funcs); cl_early = cl_n; hook_list("normal", qt_cleanup_funcs); hook_list("late", qt_cleanup_late_funcs); printf("\n");
